@@ -10,7 +10,10 @@ DIRS = ["d", "d'q", "per%cent", "under_score", "sp ace", "q\"q", "é", "a;b", "b
 RULE = ("random sequences (<= 12) of add / list-with-pattern / delete operations, each run by its own shell process on one shared database, "
         "with line texts, search patterns and working-directory names over an alphabet with ' \" % _ \\ ; -- ) and multi-byte characters; the "
         "table is read back with an independent SQLite client (python sqlite3) and compared with the Lean model and spec (rows, order, "
-        "listing results). non-trivial = distinct sequences containing a quote or wildcard character")
+        "listing results); `prompt`: sessions of 2-8 lines typed at one interactive prompt on a pseudo-terminal (repeats, repeats separated by a "
+        "space-led or blank line, trailing blanks), rows read back with the independent client and compared with the model of the prompt "
+        "loop and with `specRecorded`. non-trivial = distinct sequences containing a quote or wildcard character, distinct prompt sessions "
+        "with a repeat or a space-led line")
 
 
 def shell_quote(s):
@@ -108,10 +111,75 @@ def process(tier, rng, cicada):
 
     impl = dict(proc.pmap(one, cases))
     sb.cleanup()
-    return [("procs", cases, impl)]
+    pcases, pimpl = prompt_sessions(tier, rng, cicada)
+    return [("procs", cases, impl), ("prompt", pcases, pimpl)]
+
+
+# lines typed at one interactive prompt (a pty session): which of them are recorded.  The pool is small so that repeats,
+# repeats separated by a hidden (space-led) line, and repeats separated by a blank line are frequent.
+POOL = ["argv one", "argv 'x y'", "argv \"q%\" z", "argv é", "true", "argv a;argv b", "argv it\\'s", "argv --"]
+FIXED_SESSIONS = [
+    ["argv one", " argv hidden", "argv one", "argv two"],          # a hidden line does not reset the repeat filter
+    ["argv one", "argv one", "argv two", "argv one"],
+    ["argv one", "  ", "argv one"],
+    [" argv one", "argv one", " argv one", "argv one"],
+    ["argv one", "argv one ", "argv two"],                          # trailing blank: KF-C18-trim
+]
+
+
+def prompt_sessions(tier, rng, cicada):
+    from . import c20
+    r = rng.fork("c18-prompt")
+    n = 12 if tier == "quick" else 150
+    sessions = list(FIXED_SESSIONS)
+    while len(sessions) < n:
+        ls = []
+        for _ in range(2 + r.below(7)):
+            k = r.below(10)
+            if k <= 3 and ls:
+                base = r.choice(ls).strip() or r.choice(POOL)      # repeat of an earlier line of this session
+            else:
+                base = r.choice(POOL)
+            if r.chance(1, 4):
+                base = r.choice([" ", "  "]) + base
+            elif r.chance(1, 10):
+                base = base + " "
+            if r.chance(1, 10):
+                base = r.choice([" ", "   "])                       # a blank line: not a submission
+            ls.append(base)
+        sessions.append(ls)
+    cases = []
+    for i, ls in enumerate(sessions):
+        typed = ls + ["argv __done__"]                              # the sentinel pty_session types is a submission too
+        c = Case("hprompt", [",".join(hx(x) for x in typed)], {"gen": "p", "lines": ls})
+        c.id = "q%d" % i
+        cases.append(c)
+    sb = proc.Sandbox("c18p")
+
+    def one(ic):
+        i, c = ic
+        rows, recs, err = c20.pty_session(cicada, sb, 3000 + i, [], "\r".join(c.meta["lines"]), {})
+        if err:
+            NOTES.append("prompt session %s: %s" % (c.id, err))
+            return c.id, "ERR " + err[:120]
+        return c.id, (",".join(hx(x) for x in rows) or "[]")
+
+    impl = dict(proc.pmap(one, list(enumerate(cases)), workers=8))
+    sb.cleanup()
+    return cases, impl
+
+
+NOTES = []
+
+
+def post(rep):
+    rep.notes.extend(NOTES[:10])
 
 
 def nontrivial(c, M, S, g, cls):
+    if c.stream == "hprompt":
+        ls = c.meta["lines"]
+        return ("prompt",) + tuple(ls) if len(set(x.strip() for x in ls)) < len(ls) or any(x.startswith(" ") for x in ls) else None
     ops = c.meta["ops"]
     if any(any(ch in str(o[-1]) for ch in "'%_\"") for o in ops):
         return tuple(map(str, ops))
